@@ -22,7 +22,13 @@ type verifHMAC struct {
 }
 
 func (h *verifHMAC) Write(p []byte) (int, error) { h.buf = append(h.buf, p...); return len(p), nil }
-func (h *verifHMAC) Sum(b []byte) []byte         { return append(b, verifUF("hmac", 32, h.key, h.buf)...) }
+func (h *verifHMAC) Sum(b []byte) []byte {
+	if len(vhmacInputs) < 8 {
+		vhmacInputs = append(vhmacInputs, append([]byte(nil), h.buf...))
+		vhmacKeys = append(vhmacKeys, append([]byte(nil), h.key...))
+	}
+	return append(b, verifUF("hmac", 32, h.key, h.buf)...)
+}
 func (h *verifHMAC) Reset()                      { h.buf = nil }
 func (h *verifHMAC) Size() int                   { return 32 }
 func (h *verifHMAC) BlockSize() int              { return 64 }
@@ -30,6 +36,9 @@ func (h *verifHMAC) BlockSize() int              { return 64 }
 func verif_hmac_New(f func() hash.Hash, key []byte) hash.Hash {
 	return &verifHMAC{key: append([]byte(nil), key...)}
 }
+
+// log of the first MAC computations (key, message), for harnesses that reason about what was authenticated
+var vhmacInputs, vhmacKeys [][]byte
 
 type verifSM3 struct{ buf []byte }
 
